@@ -6,9 +6,25 @@ from gen import cfmt as G
 
 common.setup_repo_import()
 
+_M = None
 def M():
-    from lib.strformat import c
-    return c
+    """lib.strformat.c of the repository under test; if it cannot even be imported, a stand-in whose FormatString
+    raises the import error (so that every input is a concrete crash rather than a harness failure)"""
+    global _M
+    if _M is None:
+        try:
+            from lib.strformat import c
+            _M = c
+        except BaseException as exc:      # SyntaxError, NameError at import time, ...
+            import types
+            err = exc
+            class Error(Exception):
+                pass
+            class Broken:
+                def __init__(self, s):
+                    raise RuntimeError(f'lib.strformat.c cannot be imported: {type(err).__name__}: {err}')
+            _M = types.SimpleNamespace(FormatString=Broken, Error=Error, Conversion=Broken, VariableWidth=Broken, VariablePrecision=Broken)
+    return _M
 
 def hexchars(s):
     return '.'.join('%x' % ord(c) for c in s) if s else '-'
@@ -280,6 +296,8 @@ def check_property(s):
     ref = ref_printf(s)
     if (got[0] == 'ok') != (ref[0] == 'ok'):
         rep.update(kind='acceptance', observed=f'FormatString: {got}', expected=f'printf reference: {ref}', key='acceptance:' + s[:80])
+        if got[0] == 'err' and has_long_numeral(s):
+            rep['key'] = DIGIT_LIMIT_KEY      # the same site: a valid string refused because int() refuses a numeral
         return rep
     if got[0] == 'ok':
         if any(len(t) != 1 for t in got[1]) or [t[0] for t in got[1]] != ref[1]:
@@ -305,6 +323,7 @@ def stream_inputs(chk, n_single, n_multi, n_bad):
     rng = chk.rng
     fam = {}
     fam['boundary'] = G.boundary_strings()
+    fam['context'] = G.context_strings()
     fam['single'] = G.singles(rng, n_single)
     multi = []
     for _ in range(n_multi):
